@@ -209,7 +209,10 @@ def propagate(body, where=''):
 
 
 def std_rules(ret=None, extra=()):
-    rs = [Fn(member_calls), Rule(r'\bauto ec\b', 'ExpandedColor ec', regex=True), Fn(lower_try)]
+    rs = [Fn(member_calls), Rule(r'\bauto ec\b', 'ExpandedColor ec', regex=True), Fn(lower_try),
+          # std::max<T>(a, b) / std::min<T>(a, b) (and the deduced forms) on side-effect-free operands
+          Rule(r'(?<![\w.>])max<([\w ]+)>\(', r'C07_MAX_T(\1, ', regex=True), Rule(r'(?<![\w.>])min<([\w ]+)>\(', r'C07_MIN_T(\1, ', regex=True),
+          Rule(r'(?<![\w.>])max\(', 'C07_MAX(', regex=True), Rule(r'(?<![\w.>])min\(', 'C07_MIN(', regex=True)]
     rs += list(extra)
     rs.append(Fn(propagate))
     if ret is not None:
